@@ -232,8 +232,9 @@ def check_config(spec, ctx):
         # back to the original data: same as the first result
         asm0, _ = make_asm(spec, which=0)
         B0 = _dense(assemble.assemble_entries(asm0))
-        ctx.require("fresh_reproducible", np.array_equal(B0, B), "a fresh assembler with the same data gives different bits")
+        ctx.close("fresh_reproducible", B0, B, rtol=1e-13, atol=1e-13 * scale, scale=np.abs(B), what="a fresh assembler with the same data")
         asm = asm0
+        B = B0
     # ---- thread counts: bitwise identical
     for nt in cfg["threads"]:
         pyiga.set_max_threads(int(nt))
